@@ -1,7 +1,7 @@
 (* Props/C03.v — cw3: a proposal's status always equals the outcome its ballots imply. *)
 Require Import CwPlus.Params CwPlus.Base CwPlus.AMap CwPlus.Cw3Threshold CwPlus.Cw3ThresholdLemmas
   CwPlus.Cw3ThresholdContract CwPlus.Cw3ThresholdContractLemmas CwPlus.Cw4Model CwPlus.Cw3Model
-  CwPlus.Cw3Lemmas CwPlus.Cw3Lemmas2 CwPlus.Cw3Lemmas3.
+  CwPlus.Cw3Lemmas CwPlus.Cw3Lemmas2 CwPlus.Cw3Lemmas3 CwPlus.Cw4Lemmas CwPlus.Cw3Lemmas4 CwPlus.Cw3Lemmas5.
 Open Scope N_scope.
 
 (* in every reachable state the tally a proposal's status is computed from IS the sum of its recorded
@@ -93,6 +93,46 @@ Theorem c03_status_is_outcome : forall p b s, prange p -> latched_ok p b -> p_st
   end.
 Proof. exact status_is_outcome. Qed.
 
+(* THE PROPERTY OVER WHOLE HISTORIES, with the range condition discharged.
+   cw3-fixed: from any accepted instantiation, after any history of handler calls (any callers, any
+   group views, failed calls rolled back) with blocks not going backwards, at every later block: the
+   tally of each proposal is the sum of its recorded ballots, within its total, and the status every
+   query reports is the outcome the ballots imply (`outcome_ok`: Passed iff the rule passes on the
+   recorded ballots, total and present expiry state; Rejected only when it does not pass and is expired
+   or can no longer pass; Open only when unexpired and not passing; Executed only after Execute) *)
+Theorem c03_fixed_history : forall m gv ms cs b0 b' id p s,
+  instantiate m gv = Ok ms -> i_flex m = false -> hmono b0 cs -> block_le (hlast b0 cs) b' ->
+  getp (hrun ms cs) id = Some p -> q_status (hrun ms cs) b' id = Some s ->
+  p_votes p = tally_m (p_ballots p) /\ tally (p_votes p) <= p_total p /\ outcome_ok p b' s.
+Proof. exact fixed_status_history. Qed.
+(* cw3-flex together with its cw4 group (both models), over every interleaving of multisig calls and
+   group transactions outside the known class D3 (no group change earlier in a proposal's own block):
+   the same *)
+Theorem c03_flex_history : forall m gv ms g cs b0 b' id p s,
+  Cw3Model.instantiate m gv = Ok ms -> i_flex m = true -> Cw4Lemmas.WInv g (height b0) ->
+  fbmono b0 cs -> outside_d3 (ms, g) cs -> block_le (flast b0 cs) b' ->
+  getp (fst (frun (ms, g) cs)) id = Some p -> q_status (fst (frun (ms, g) cs)) b' id = Some s ->
+  p_votes p = tally_m (p_ballots p) /\ tally (p_votes p) <= p_total p /\ outcome_ok p b' s.
+Proof. exact flex_status_history. Qed.
+(* the flex theorem's hypotheses are met by a history that changes the group between proposals and
+   votes: members 1,2,3 (weights 1,1,10); member 3 removed in block 20; proposal in block 21 (total 2);
+   in block 22 member 1 is re-weighted to 5 and then votes are cast with the snapshot weights *)
+Example c03_flex_history_nonvacuous :
+  exists g ms,
+    Cw4Model.instantiate (Cw4Model.mkInit false (Some (Some 9)) [(Some 1, 1); (Some 2, 1); (Some 3, 10)] cfg_default) (mkBlock 10 0) = Ok g /\
+    Cw3Model.instantiate (mkInit true [] (AbsPct 510000000000000000) (DHeight 5) None None true) (gview_of g) = Ok ms /\
+    let cs := [FGroup (mkBlock 20 0, 9, UpdateMembers [] [Some 3], true);
+               FMs (mkBlock 21 0) 1 (Propose 1 [] None []);
+               FGroup (mkBlock 22 0, 9, UpdateMembers [(Some 1, 5)] [], true);
+               FMs (mkBlock 22 5) 2 (Vote 1 VYes)] in
+    fbmono (mkBlock 10 0) cs /\ outside_d3 (ms, g) cs /\
+    q_status (fst (frun (ms, g) cs)) (mkBlock 22 5) 1 = Some Passed /\
+    exists p, getp (fst (frun (ms, g) cs)) 1 = Some p /\ p_total p = 2 /\ tally (p_votes p) = 2.
+Proof.
+  eexists _, _. split; [vm_compute; reflexivity|]. split; [vm_compute; reflexivity|]. cbv zeta.
+  split; [apply fbmono_b_sound; vm_compute; reflexivity|]. split; [apply outside_d3_b_sound; vm_compute; reflexivity|].
+  split; [vm_compute; reflexivity|]. eexists. split; [vm_compute; reflexivity|]. split; reflexivity.
+Qed.
 Example c03_nonvacuous :
   exists ms, instantiate (mkInit false [(Some 1, 0); (Some 2, 3); (Some 3, 4)] (ThQuorum 510000000000000000 400000000000000000)
                                  (DHeight 5) None None true) gview_none = Ok ms /\
@@ -111,3 +151,5 @@ Print Assumptions c03_fixed_in_range.
 Print Assumptions c03_latch_time.
 Print Assumptions c03_latch_step.
 Print Assumptions c03_status_is_outcome.
+Print Assumptions c03_fixed_history.
+Print Assumptions c03_flex_history.
